@@ -69,6 +69,9 @@ func main() {
 	grpcDesign := fl.Bool("grpc-design", false, "a design with gRPC endpoints (C10)")
 	aliasDesign := fl.Bool("alias-design", false, "primitive alias types with validations, attributes with their own Enum (C02-C04)")
 	anyDesign := fl.Bool("any-design", false, "the type Any as payload, result, element, attribute, parameter and header; odd designs without examples (C01, C07)")
+	statusDesign := fl.Bool("status-design", false, "one response per final HTTP status code, named by net/http or not (C05, C07)")
+	soloDesign := fl.Bool("solo-design", false, "methods with exactly one payload attribute: type x presence x validation x location (C01)")
+	multipartDesign := fl.Bool("multipart-design", false, "multipart requests with one parameter or header of every kind (C01; generated and compiled only)")
 	mapkeyDesign := fl.Bool("mapkey-design", false, "every primitive as a map key, in request body / response body / query string (C01)")
 	loose := fl.Bool("loose-defaults", false, "with -matrix-design: collection defaults given as []any / map[string]any")
 	matrixDesign := fl.Bool("matrix-design", false, "the systematic transport table: primitive x location x required/optional/default (C02-C04)")
@@ -96,6 +99,24 @@ func main() {
 		}
 		if *anyDesign {
 			d := design.GenerateAny(lp.NewRng(*seed*1000003+uint64(*index)+37), *index)
+			b, _ := json.Marshal(d)
+			fmt.Println(string(b))
+			return
+		}
+		if *statusDesign {
+			d := design.GenerateStatus(lp.NewRng(*seed*1000003+uint64(*index)+41), *index)
+			b, _ := json.Marshal(d)
+			fmt.Println(string(b))
+			return
+		}
+		if *soloDesign {
+			d := design.GenerateSolo(lp.NewRng(*seed*1000003+uint64(*index)+43), *index)
+			b, _ := json.Marshal(d)
+			fmt.Println(string(b))
+			return
+		}
+		if *multipartDesign {
+			d := design.GenerateMultipart(lp.NewRng(*seed*1000003+uint64(*index)+47), *index)
 			b, _ := json.Marshal(d)
 			fmt.Println(string(b))
 			return
